@@ -82,11 +82,11 @@ class _Mods(object):
 # (class name | None for module-level class, function name) -> source-line prefixes that open a window
 WINDOW_PATTERNS = [
   ("Scheduler.fast_schedule", ["if first:", "self._ready.appendleft(task)", "self._ready.append(task)", "self._selectHub.break_idle()"]),
-  ("Scheduler.schedule", ["if task in self._ready:", "self.fast_schedule(task, first)", "st = ScheduleTask(self, task)", "st.start(fast=True)"]),
+  ("Scheduler.schedule", ["if task in self._ready:", "self.fast_schedule(task, first)", "st = ScheduleTask(self, task)", "st.start("]),
   ("Scheduler.run", ["if len(self._ready) == 0:", "self._selectHub.idle()", "if self._hasQuit: break", "r = self.cycle()"]),
   ("Scheduler.cycle", ["t = self._ready.popleft()", "rv = t.execute()", "self._ready.append(t)"]),
   ("Scheduler.callLater", ["with self._lock:", "if self._callLaterTask is None:", "self._callLaterTask = CallLaterTask()",
-                           "self._callLaterTask.start()", "self._callLaterTask.callLater(func, *args, **kw)"]),
+                           "self._callLaterTask.start(", "self._callLaterTask.callLater(func, *args, **kw)"]),
   ("CallLaterTask.callLater", ["self._calls.append((func,args,kw))", "self._pinger.ping()"]),
   ("CallLaterTask.run", ["yield Select([self._pinger], None, None)", "self._pinger.pongAll()", "e = self._calls.popleft()"]),
   ("ScheduleTask.run", ["if self._task in self._scheduler._ready:", "self._scheduler.fast_schedule(self._task, True)", "yield False"]),
